@@ -682,11 +682,13 @@ def _prejudge_scale(t, num, den):
 
 # ---------------------------------------------------------------------------
 # parent side
-def sources(chk):
+def sources(chk, keep=None):
     from . import fonts
 
     src = []
     for p in common.corpus_fonts():
+        if keep is not None and not keep(common.rel(p)):
+            continue
         try:
             n = fonts.num_fonts_in(p)
             with open(p, "rb") as f:
@@ -695,7 +697,8 @@ def sources(chk):
             continue
         for i in range(n):
             src.append((common.rel(p) + ("#%d" % i if n > 1 else ""), data, i if n > 1 else -1))
-    for p, b in fonts.compiled_ttx_fonts():
+    ttx = [p for p in fonts.whole_font_ttx() if keep is None or keep(common.rel(p))]
+    for p, b in fonts.compiled_ttx_fonts(ttx):
         src.append((common.rel(p), b, -1))
     return src
 
@@ -843,7 +846,7 @@ def run(chk):
     keep = (lambda label: re.search(only, label) is not None) if only else (lambda label: True)
     specs = run_gen(chk) if keep("model:family/") else []
     jobs = []
-    for label, data, idx in sources(chk):
+    for label, data, idx in sources(chk, keep if only else None):
         if keep(label):
             jobs.append((label, data, idx, chk.seed, chk.tier, ("reorder", "scale")))
     for label, data, idx, do in model_sources(chk, specs):
